@@ -66,90 +66,95 @@ def dropRet (r : Res (V × Bool × Bytes)) : Res (V × Bytes) :=
   | .ok (v, _, rest) => .ok (v, rest)
   | .err e => .err e
 
-/-- result: (value, "the Go function returned a non-nil []byte/string", rest) -/
+/-- cbor.go:253-270: the argument ("count") of the initial byte; major type 7 never reads one -/
+def readCount (typ sc : Nat) (bs : Bytes) : Res (Nat × Bytes) :=
+  if typ = majorTypeSpecialFloat then .ok (sc, bs)
+  else if sc = shortCountVariable8Bit then readU 1 bs
+  else if sc = shortCountVariable16Bit then readU 2 bs
+  else if sc = shortCountVariable32Bit then readU 4 bs
+  else if sc = shortCountVariable64Bit then readU 8 bs
+  else if sc = 28 ∨ sc = 29 ∨ sc = 30 then .err .fatal   -- d.Fatalf("incorrect shortCount")
+  else .ok (sc, bs)
+
+/-- the `d:` functions of `majorTypeMap` (cbor.go:118-250); `dec` decodes a nested value, `lf` is the
+    loop fuel of the indefinite-length loops.
+    result: (value, "the Go function returned a non-nil []byte/string", rest) -/
+def runMajor (fix : Bool) (dec : Bytes → Res (V × Bool × Bytes)) (lf : Nat) (typ sc count : Nat) (bs1 : Bytes) :
+    Res (V × Bool × Bytes) :=
+  let elem : Bytes → Res (V × Bytes) := fun x => dropRet (dec x)
+  /- after an indefinite string loop: the as-is code goes on WITHOUT reading the break -/
+  let afterChunks (r : Bytes) : Bytes := if fix then r.drop 1 else r
+  if typ = majorTypePositiveInt then .ok (.int count, false, bs1)
+  else if typ = majorTypeNegativeInt then .ok (.int (-1 - (count : Int)), false, bs1)
+  else if typ = majorTypeBytes then
+    if sc = shortCountIndefinite then
+      match decChunks dec false lf bs1 with
+      | .err e => .err e
+      | .ok (cs, r) => .ok (.bytes cs.flatten, false, afterChunks r)
+    else if count ≥ 2^60 then .err .unmodelled          -- int64(count)*8 wraps in Go
+    else
+      match readN count bs1 with
+      | .err e => .err e
+      | .ok (x, r) => .ok (.bytes x, true, r)
+  else if typ = majorTypeUTF8 then
+    if sc = shortCountIndefinite then
+      match decChunks dec true lf bs1 with
+      | .err e => .err e
+      | .ok (cs, r) => .ok (.str cs.flatten, false, afterChunks r)
+    else if count ≥ 2^60 then .err .unmodelled
+    else
+      match readN count bs1 with
+      | .err e => .err e
+      | .ok (x, r) => .ok (.str (sanitizeX x), true, r)
+  else if typ = majorTypeArray then
+    if sc = shortCountIndefinite then
+      match decUntil breakMarker elem lf bs1 with
+      | .err e => .err e
+      | .ok (vs, r) => .ok (.arr vs, false, r.drop 1)     -- d.FieldU8("break")
+    else
+      match decElems elem count bs1 with
+      | .err e => .err e
+      | .ok (vs, r) => .ok (.arr vs, false, r)
+  else if typ = majorTypeMap then
+    if sc = shortCountIndefinite then
+      match decPairsUntil breakMarker elem lf bs1 with
+      | .err e => .err e
+      | .ok (kvs, r) => .ok (.map kvs, false, r.drop 1)
+    else
+      match decPairs elem count bs1 with
+      | .err e => .err e
+      | .ok (kvs, r) => .ok (.map kvs, false, r)
+  else if typ = majorTypeSematic then
+    -- tag + nested value; `.value | tovalue` of a tagged item is the decode tree, not a JSON-like value
+    match elem bs1 with
+    | .err e => .err e
+    | .ok _ => .err .unmodelled
+  else
+    -- majorTypeSpecialFloat, cbor.go:228-249
+    if sc = shortCountSpecialFalse then .ok (.bool false, false, bs1)
+    else if sc = shortCountSpecialTrue then .ok (.bool true, false, bs1)
+    else if sc = shortCountSpecialFloat16Bit then
+      match readU 2 bs1 with
+      | .err e => .err e
+      | .ok (p, r) => .ok (.float (widen16 p), false, r)
+    else if sc = shortCountSpecialFloat32Bit then
+      match readU 4 bs1 with
+      | .err e => .err e
+      | .ok (p, r) => .ok (.float (widen32 p), false, r)
+    else if sc = shortCountSpecialFloat64Bit then
+      match readU 8 bs1 with
+      | .err e => .err e
+      | .ok (p, r) => .ok (.float p, false, r)
+    else .ok (.null, false, bs1)      -- null, undefined, 0..19, 24, 28..31: no `value` field => null
+
+/-- `decodeCBORValue` (cbor.go:117-283) -/
 def decT (fix : Bool) : Nat → Bytes → Res (V × Bool × Bytes)
   | 0, _ => .err .fuel
   | _+1, [] => .err .eof                                   -- d.FieldU3("major_type")
   | fuel+1, b :: bs =>
-    let typ := b.toNat / 32
-    let sc := b.toNat % 32
-    -- cbor.go:253-270
-    let cnt : Res (Nat × Bytes) :=
-      if typ = majorTypeSpecialFloat then .ok (sc, bs)
-      else if sc = shortCountVariable8Bit then readU 1 bs
-      else if sc = shortCountVariable16Bit then readU 2 bs
-      else if sc = shortCountVariable32Bit then readU 4 bs
-      else if sc = shortCountVariable64Bit then readU 8 bs
-      else if sc = 28 ∨ sc = 29 ∨ sc = 30 then .err .fatal   -- d.Fatalf("incorrect shortCount")
-      else .ok (sc, bs)
-    match cnt with
+    match readCount (b.toNat / 32) (b.toNat % 32) bs with
     | .err e => .err e
-    | .ok (count, bs1) =>
-      let elem : Bytes → Res (V × Bytes) := fun x => dropRet (decT fix fuel x)
-      /- after an indefinite string loop: the as-is code goes on WITHOUT reading the break -/
-      let afterChunks (r : Bytes) : Bytes := if fix then r.drop 1 else r
-      if typ = majorTypePositiveInt then .ok (.int count, false, bs1)
-      else if typ = majorTypeNegativeInt then .ok (.int (-1 - (count : Int)), false, bs1)
-      else if typ = majorTypeBytes then
-        if sc = shortCountIndefinite then
-          match decChunks (decT fix fuel) false fuel bs1 with
-          | .err e => .err e
-          | .ok (cs, r) => .ok (.bytes cs.flatten, false, afterChunks r)
-        else if count ≥ 2^60 then .err .unmodelled          -- int64(count)*8 wraps in Go
-        else
-          match readN count bs1 with
-          | .err e => .err e
-          | .ok (x, r) => .ok (.bytes x, true, r)
-      else if typ = majorTypeUTF8 then
-        if sc = shortCountIndefinite then
-          match decChunks (decT fix fuel) true fuel bs1 with
-          | .err e => .err e
-          | .ok (cs, r) => .ok (.str cs.flatten, false, afterChunks r)
-        else if count ≥ 2^60 then .err .unmodelled
-        else
-          match readN count bs1 with
-          | .err e => .err e
-          | .ok (x, r) => .ok (.str (sanitizeX x), true, r)
-      else if typ = majorTypeArray then
-        if sc = shortCountIndefinite then
-          match decUntil breakMarker elem fuel bs1 with
-          | .err e => .err e
-          | .ok (vs, r) => .ok (.arr vs, false, r.drop 1)     -- d.FieldU8("break")
-        else
-          match decElems elem count bs1 with
-          | .err e => .err e
-          | .ok (vs, r) => .ok (.arr vs, false, r)
-      else if typ = majorTypeMap then
-        if sc = shortCountIndefinite then
-          match decPairsUntil breakMarker elem fuel bs1 with
-          | .err e => .err e
-          | .ok (kvs, r) => .ok (.map kvs, false, r.drop 1)
-        else
-          match decPairs elem count bs1 with
-          | .err e => .err e
-          | .ok (kvs, r) => .ok (.map kvs, false, r)
-      else if typ = majorTypeSematic then
-        -- tag + nested value; `.value | tovalue` of a tagged item is the decode tree, not a JSON-like value
-        match elem bs1 with
-        | .err e => .err e
-        | .ok _ => .err .unmodelled
-      else
-        -- majorTypeSpecialFloat, cbor.go:228-249
-        if sc = shortCountSpecialFalse then .ok (.bool false, false, bs1)
-        else if sc = shortCountSpecialTrue then .ok (.bool true, false, bs1)
-        else if sc = shortCountSpecialFloat16Bit then
-          match readU 2 bs1 with
-          | .err e => .err e
-          | .ok (p, r) => .ok (.float (widen16 p), false, r)
-        else if sc = shortCountSpecialFloat32Bit then
-          match readU 4 bs1 with
-          | .err e => .err e
-          | .ok (p, r) => .ok (.float (widen32 p), false, r)
-        else if sc = shortCountSpecialFloat64Bit then
-          match readU 8 bs1 with
-          | .err e => .err e
-          | .ok (p, r) => .ok (.float p, false, r)
-        else .ok (.null, false, bs1)      -- null, undefined, 0..19, 24, 28..31: no `value` field => null
+    | .ok (count, bs1) => runMajor fix (decT fix fuel) fuel (b.toNat / 32) (b.toNat % 32) count bs1
 
 /-- `fq -d cbor torepr` as the code is -/
 def decode (bs : Bytes) : Res (V × Bytes) := withRepr (dropRet (decT false (bs.length + 1) bs))
